@@ -44,16 +44,24 @@ func FeedLog(ctx context.Context, l config.Log, w feeder.Witness, c *http.Client
 	fetchCP := func(ctx context.Context) ([]byte, error) {
 		return f(ctx, "checkpoint")
 	}
-	fetchProof := func(ctx context.Context, from, to log.Checkpoint) ([][]byte, error) {
+	fetchProof := func(ctx context.Context, from, to log.Checkpoint) (conP [][]byte, err error) {
 		if from.Size == 0 {
 			return [][]byte{}, nil
 		}
+		// The serverless client library indexes into tile data fetched from the
+		// log before validating it (e.g. a tile with fewer than two lines), so
+		// a malformed response must fail this attempt rather than crash the witness.
+		defer func() {
+			if r := recover(); r != nil {
+				conP, err = nil, fmt.Errorf("failed to create proof for %q: invalid data from log: %v", l.Origin, r)
+			}
+		}()
 		pb, err := client.NewProofBuilder(ctx, to, h.HashChildren, f)
 		if err != nil {
 			return nil, fmt.Errorf("failed to create proof builder for %q: %v", l.Origin, err)
 		}
 
-		conP, err := pb.ConsistencyProof(ctx, from.Size, to.Size)
+		conP, err = pb.ConsistencyProof(ctx, from.Size, to.Size)
 		if err != nil {
 			return nil, fmt.Errorf("failed to create proof for %q(%d -> %d): %v", l.Origin, from.Size, to.Size, err)
 		}
